@@ -275,7 +275,11 @@ def names_legal_and_distinct(chk, n):
             key = KF_NAMES if (b[0] == 0x67 and b[1:] == a) else None
             chk.violation(f"distinct sequences {seen[name]} and {cps} share the glyph name {name!r}", {"a": seen[name], "b": cps}, finding_key=key)
         seen[name] = cps
-        for fn in ("emoji_u" + "_".join("%04x" % c for c in cps) + ".svg", "-".join("%x" % c for c in cps) + ".svg"):
+        # the naming schemes in the wild: Noto (emoji_u + zero-padded lower case, '_'), Twemoji (lower case, '-'),
+        # OpenMoji (upper case, '-', no prefix), and mixed case
+        for fn in ("emoji_u" + "_".join("%04x" % c for c in cps) + ".svg", "-".join("%x" % c for c in cps) + ".svg",
+                   "-".join("%04X" % c for c in cps) + ".svg", "emoji_u" + "_".join("%X" % c for c in cps) + ".svg",
+                   "_".join(("%X" if i % 2 else "%x") % c for i, c in enumerate(cps)) + ".svg"):
             if tuple(codepoints.from_filename(fn)) != cps:
                 chk.violation(f"codepoints.from_filename({fn!r}) = {codepoints.from_filename(fn)} != {cps}", {"file": fn})
     # the known collision, deliberately
